@@ -74,6 +74,13 @@ func init() {
 		out = append(out, tx.data...)
 		return TupleV{V: []Value{mkByteSlice(out), IfaceV{}}}
 	}
+	// transaction signing on the proposer side: the signature itself is not the subject
+	I["github.com/cosmos/cosmos-sdk/client/tx.SignWithPrivKey"] = func(e *Exec, fn *ssa.Function, a []Value) Value {
+		return TupleV{V: []Value{e.zero(fn.Signature.Results().At(0).Type()), IfaceV{}}}
+	}
+	I["(*cosmossdk.io/x/tx/signing.HandlerMap).DefaultMode"] = func(e *Exec, fn *ssa.Function, a []Value) Value {
+		return BVI(32, 1) // SIGN_MODE_DIRECT
+	}
 	const EC = "github.com/ethereum/go-ethereum/common"
 	I[EC+".LeftPadBytes"] = func(e *Exec, fn *ssa.Function, a []Value) Value {
 		bs := sliceTerms(a[0])
